@@ -281,12 +281,14 @@ theorem order_indep_val : ∀ (v w : PyVal), Equiv v w → sortable v = true →
     simp only [sortable, Bool.and_eq_true, decide_eq_true_eq] at hs
     obtain ⟨⟨hsf, hso⟩, hlen⟩ := hs
     obtain ⟨ps, qs, h1, h2, h3⟩ := order_indep_list fs fs' hf hsf
+    have hps : evalPureList H ps = evalPureList H qs := by
+      rw [evalPureList_eq_flatten, evalPureList_eq_flatten, h3]
     -- the optional `.Outputs` class: none on both sides, or one on both sides with equal inline bytes
     match os, os', ho, hso, hlen with
     | [], [], _, _, _ =>
       refine ⟨_, _, by simp only [pre, h1, preList, except_bind_ok, except_pure]; rfl,
         by simp only [pre, h2, preList, except_bind_ok, except_pure]; rfl, EncEq.of_parts H ?_⟩
-      simp only [List.cons_append, evalPureList_lit, evalPureList_append, evalPureList_eq_flatten, h3]
+      simp only [List.cons_append, List.nil_append, evalPureList_lit, evalPureList_append, hps]
     | [], _ :: _, ho, _, _ => simp [EquivList] at ho
     | _ :: _, [], ho, _, _ => simp [EquivList] at ho
     | [o], [o'], ho, hso, _ =>
@@ -295,9 +297,8 @@ theorem order_indep_val : ∀ (v w : PyVal), Equiv v w → sortable v = true →
       obtain ⟨p, q, g1, g2, i', ps', j', qs', rfl, rfl, g3⟩ := order_indep_val o o' ho hso
       refine ⟨_, _, by simp only [pre, h1, preList, g1, except_bind_ok, except_pure]; rfl,
         by simp only [pre, h2, preList, g2, except_bind_ok, except_pure]; rfl, EncEq.of_parts H ?_⟩
-      simp only [List.cons_append, evalPureList_lit, evalPureList_append, evalPureList_eq_flatten, h3]
-      simp only [← evalPureList_eq_flatten, g3]
-    | _ :: _ :: _, _, _, _, hlen => simp at hlen; omega
+      simp only [List.cons_append, List.nil_append, evalPureList_lit, evalPureList_append, hps, g3]
+    | _ :: _ :: _, _, _, _, hlen => simp at hlen
   | .task .., w, he, _ => by cases w <;> simp only [Equiv] at he
   | .ref _, w, he, _ => by cases w <;> simp only [Equiv] at he
 theorem order_indep_list : ∀ (xs ys : List PyVal), EquivList xs ys → sortableList xs = true →
